@@ -112,3 +112,23 @@ package dot
 //@   allocates
 //@   ensures graphOK(dg)
 
+
+// Text of a node, of its attributes, of a colour (not verified: string
+// building with fmt; they write nothing and need their node)
+//@ func (p *Param) String() (s)
+//@   trusted
+//@   requires[C14:param-text-needs-its-node] p != nil && p.Node != nil
+//@ func (r *Result) String() (s)
+//@   trusted
+//@   requires[C14:result-text-needs-its-node] r != nil && r.Node != nil
+//@ func (r *Result) Attributes() (s)
+//@   trusted
+//@   requires[C14:result-attributes-need-the-node] r != nil && r.Node != nil
+//@ func (g *Group) String() (s)
+//@   trusted
+//@   requires[C14:group-text-needs-the-group] g != nil
+//@ func (g *Group) Attributes() (s)
+//@   trusted
+//@   requires[C14:group-attributes-need-the-group] g != nil
+//@ func (s ErrorType) Color() (c)
+//@   trusted
